@@ -1,8 +1,9 @@
 #!/bin/sh
 # run every claimed quick check once with the given seed; print exit code and wall time (no evidence restored)
 seed=${1:-1}; shift
-ids=${@:-$(python3 -c "import json;print(' '.join(c['property_id'] for c in json.load(open('/verif/MANIFEST.json'))['checks']))")}
-cd /verif
+here=$(cd "$(dirname "$0")/.." && pwd)
+cd "$here"
+ids=${@:-$(python3 -c "import json;print(' '.join(c['property_id'] for c in json.load(open('MANIFEST.json'))['checks']))")}
 for c in $ids; do
   t0=$(date +%s)
   VERIF_SEED=$seed ./check $c --tier quick > .work_sweep_$c.log 2>&1
